@@ -599,6 +599,24 @@ theorem C20_layers_drawn_are_the_requested_ones (fam : Family) (layers : List (S
     exact ⟨by simpa using hg, drawLayersLoop_spec fam layers ports ds h⟩
   · cases h
 
+/-- `draw_space(space, agent_portrayal, propertylayer_portrayal, ax)` puts both on one Axes: the agents exactly as
+    without layers (so `C20_draw_one_marker_per_agent` applies), then the layers exactly as `draw_property_layers`
+    draws them; an empty request is skipped (on every class), a refused one raises after the agents are drawn. -/
+theorem C20_draw_space_with_layers {sp : Space} (h : Reachable sp) (heap : Heap) (p : Portrayal)
+    (layers : List (String × Layer)) (ports : List (String × LayerPortrayal)) :
+    ∃ gs, drawSpace sp heap p = .ok gs ∧
+      (ports = [] → drawSpaceFull sp heap p layers ports = .ok (gs, [])) ∧
+      (ports ≠ [] → ∀ ds, drawLayers sp.fam layers ports = .ok ds → drawSpaceFull sp heap p layers ports = .ok (gs, ds)) ∧
+      (ports ≠ [] → ∀ e, drawLayers sp.fam layers ports = .error e →
+        drawSpaceFull sp heap p layers ports = .error (.layers e)) := by
+  obtain ⟨gs, hgs, _⟩ := C20_draw_one_marker_per_agent h heap p
+  refine ⟨gs, hgs, fun he => ?_, fun hne ds hd => ?_, fun hne e hd => ?_⟩
+  · unfold drawSpaceFull; rw [hgs, he]; rfl
+  · have : ports.isEmpty = false := by cases ports <;> simp_all
+    unfold drawSpaceFull; rw [hgs]; simp only [this, hd]; rfl
+  · have : ports.isEmpty = false := by cases ports <;> simp_all
+    unfold drawSpaceFull; rw [hgs]; simp only [this, hd]; rfl
+
 /-- What is refused: a space class without property layers (AttributeError), a layer whose portrayal names neither
     a colour nor a colormap, a hex layer over an inverted range (ValueError, raised by `Normalize`). -/
 theorem C20_layers_refused (fam : Family) (layers : List (String × Layer)) (name : String) (L : Layer) (pt : LayerPortrayal) :
@@ -866,6 +884,10 @@ example : (drawLayers .hex exLayers [("a", { mode := .color "red", alpha := 50, 
 
 example : drawLayers .hex exLayers [("a", { mode := .colormap "viridis", vmin := some 3, vmax := some 1 })] = .error .value := by
   decide
+
+example : (drawSpaceFull v7Space [] (fun _ => none) [("a", ⟨2, 2, [0, 1, 2, 3]⟩)]
+      [("a", { mode := .color "red", colorbar := false })]).toOption.map (fun r => (r.1.length, r.2.map (·.name))) =
+    some (1, ["a"]) := by decide
 
 example : drawLayers .net exLayers [] = .error .attribute := by decide
 
